@@ -101,3 +101,96 @@ Example C17_nonvacuous :
   forest_cons ex_tree = true /\ adequate (ser_doc ex_tree) [] = true /\ roundtrip_tok ex_tree = true /\
   rt_hyps ex_doc2 = true.
 Proof. destruct ex_tree_ok as (A & B & C). pose proof ex_doc2_hyps as D. repeat split; assumption. Qed.
+
+(* ---------------------------------------------------------------------------------------------
+   Gap (1) of C17_roundtrip_partial, closed for character data, attribute values and tags: the
+   characters [render] writes, read by the tokenizer AS MODELLED IN TokIR (TokIR/Interp.v
+   interpreting the table REGENERATED from xml5ever/src/tokenizer/mod.rs; reference semantics:
+   flat queue, exact_errors = true), with the entity table as compiled into web_atoms
+   (Gen/GenEntities.v).  The theorems of XmlNs/XLex*.v are generic in the step table (nine arm
+   bodies as hypotheses, XLexBase.xml_bodies) and in the entity lookup (XLexBase.ent_five);
+   Inst/InstXmlLex.v discharges both on the generated files.
+   [xml_steps m m'] = the step function takes m to m' in finitely many steps, none of which
+   suspends; it is the executable loop (C17_lex_steps_are_the_loop). *)
+From HV Require TokIR.IR TokIR.Interp XmlNs.XLexBase XmlNs.XLex XmlNs.XLexTag XmlNs.XLexSer Inst.InstXmlLex.
+
+Theorem C17_lex_steps_are_the_loop :
+  forall simd c1 sk m m', InstXmlLex.xml_steps simd c1 sk m m' ->
+  exists n, forall fuel, InstXmlLex.xml_run simd c1 sk (n + fuel) m = InstXmlLex.xml_run simd c1 sk fuel m'.
+Proof. exact InstXmlLex.xml_steps_run. Qed.
+Print Assumptions C17_lex_steps_are_the_loop.
+
+(* (a) character data: from the Data state, the escaped text of a text node followed by '<' is
+   delivered as one character token per character of the ORIGINAL text ([exp_text]; a parse error
+   token precedes a character that exact_errors reports - control characters, non-characters - and
+   the CR that was written as &#13;), nothing else changes, and the tokenizer is in the tag state
+   with the rest of the input.  For every text without U+0000 and every configuration. *)
+Theorem C17_lex_text :
+  forall simd c1 sk s b cu tk tn ta an av rest o k, no_nul s = true ->
+  exists o' k',
+    InstXmlLex.xml_steps simd c1 sk
+      (XLexBase.mkM b IR.XData false cu false None tk tn ta an av (escape false s ++ 60 :: rest) o k)
+      (XLexBase.mkM b IR.XTagState false 60 false None tk tn ta an av rest o' k') /\
+    XLexBase.otoks o' = rev (XLex.exp_text s) ++ XLexBase.otoks o.
+Proof. exact InstXmlLex.xml_text_lex. Qed.
+Print Assumptions C17_lex_text.
+
+(* (b) attribute values: <a b="..."> with the escaped value is one start tag a whose attribute b
+   has the ORIGINAL value (plus the parse errors of reported characters, [err_toks]) *)
+Theorem C17_lex_attr_value :
+  forall simd c1 sk s b cu tk tn ta rest o k, no_nul s = true ->
+  exists b' o' k',
+    InstXmlLex.xml_steps simd c1 sk
+      (XLexBase.mkM b IR.XData false cu false None tk tn ta [] []
+                    ([60; 97; 32; 98; 61; 34] ++ escape true s ++ [34; 62] ++ rest) o k)
+      (XLexBase.mkM b' IR.XData false 62 false None IR.TStartTag [] [] [] [] rest o' k') /\
+    XLexBase.otoks o' =
+      Interp.TTag IR.TStartTag [97] false [([98], s)] false :: rev (XLex.err_toks s) ++ XLexBase.otoks o.
+Proof. exact InstXmlLex.xml_attr_tag_lex. Qed.
+Print Assumptions C17_lex_attr_value.
+
+(* (c) a whole start tag as the serializer writes it - name, xmlns declarations, attributes with
+   escaped values - is read back as ONE start tag token whose name and attribute list (duplicates
+   dropped, declarations first: the tokenizer's finish_attribute) are exactly those of
+   [tokenize (item_rtoken i)], the token C17_roundtrip_partial feeds the tree builder model.
+   Hypotheses: the characters of the names are ones the tokenizer keeps in a name
+   ([tag_name_ok], [raw_ok]: no white space, '/', '>', '=', CR, U+0000 or reported character in the
+   respective positions - true of names that came out of this tokenizer), values without U+0000. *)
+Theorem C17_lex_start_tag_partial :
+  forall simd c1 sk name decls attrs b cu tk tn ta rest o k,
+  XLexTag.tag_name_ok (qual name) = true ->
+  forallb XLexTag.raw_ok (XRoundTrip.item_raws decls attrs) = true ->
+  exists tas o' k',
+    InstXmlLex.xml_steps simd c1 sk
+      (XLexBase.mkM b IR.XData false cu false None tk tn ta [] []
+                    (render_item (IStart name decls attrs) ++ rest) o k)
+      (XLexBase.mkM b IR.XData false 62 false None IR.TStartTag [] [] [] [] rest o' k') /\
+    XLexBase.otoks o' =
+      Interp.TTag IR.TStartTag (qual name) false tas false
+      :: rev (XLexTag.tag_errs_of (XRoundTrip.item_raws decls attrs)) ++ XLexBase.otoks o /\
+    tokenize (item_rtoken (IStart name decls attrs)) =
+      TTag StartTag (process_qname (qual name)) (map XLexSer.conv_attr tas)
+           (qual name, XRoundTrip.item_raws decls attrs).
+Proof. exact InstXmlLex.xml_start_item_lex. Qed.
+Print Assumptions C17_lex_start_tag_partial.
+
+(* ... and an end tag (for a sink that does not answer end tags with a script request, which
+   would suspend the loop) *)
+Theorem C17_lex_end_tag_partial :
+  forall simd c1 sk, Interp.sk_resp sk = [] -> forall name b cu tk tn ta rest o k,
+  XLexTag.etag_name_ok (qual name) = true ->
+  exists o' k',
+    InstXmlLex.xml_steps simd c1 sk
+      (XLexBase.mkM b IR.XData false cu false None tk tn ta [] [] (render_item (IEnd name) ++ rest) o k)
+      (XLexBase.mkM b IR.XData false 62 false None IR.TEndTag [] [] [] [] rest o' k') /\
+    XLexBase.otoks o' = Interp.TTag IR.TEndTag (qual name) false [] false :: XLexBase.otoks o /\
+    tokenize (item_rtoken (IEnd name)) = TTag EndTag (process_qname (qual name)) [] (qual name, []).
+Proof. exact InstXmlLex.xml_end_item_lex. Qed.
+Print Assumptions C17_lex_end_tag_partial.
+
+(* What is still missing for gap (1): comments, processing instructions and the doctype are not
+   lexed here; the per-item theorems are not yet chained over a whole item list (each ends in the
+   Data state with the rest of the input, where the next begins; character tokens arrive split
+   per character, which the tree builder does not see - Props/C15.v,
+   C15_tree_builder_independent_of_character_token_splitting); exact_errors = false and the
+   chunked queue are related to this reference semantics in TokIR/BulkSim.v and QueueSim.v. *)
